@@ -3,6 +3,8 @@ path that makes a new node visible in the unique table has passed, in order, thr
 normalisation, the transparent test, sorting of sparse input, the identity-pattern test, the redundancy
 test, the hash computation and the duplicate lookup.  Plus: dd_edge equality reads forest id, node
 and edge value of both sides."""
+import re
+
 from cfg import Graph, qmatch, show_path
 from core import Finding, RuleResult
 from frontend import AnalysisBroken, where, base_name
@@ -85,7 +87,12 @@ def rule_canon(P):
         if n.kind != "branch" or not n.cond or n.cond.get("op") != "==":
             return False
         l, r = n.cond["l"], n.cond["r"]
-        return (l.get("const") == 0 and "nnz" in r["refs"]) or (r.get("const") == 0 and "nnz" in l["refs"])
+        # the count of non-transparent children compared with 0 — recognised by what its zero arm does (returns the
+        # transparent node), not by the variable's name
+        if not ((l.get("const") == 0 and "const" not in r and len(r["refs"]) == 1) or (r.get("const") == 0 and "const" not in l and len(l["refs"]) == 1)) or len(n.succ) != 2:
+            return False
+        st = [s for s, i in n.succ if i == (1 if n.cond.get("neg") else 0)][0]
+        return _is_call("forest::getTransparentNode")(g.nodes[st]) or g.path(st, _is_call("forest::getTransparentNode"), avoid=sink) is not None
     tz = must_pass("transparent test (nnz == 0) on every insertion path", "transparent-test", zero_nnz, "a node whose children are all transparent can be inserted (no nnz==0 test on some path)")
     for t in tz:
         idx = 1 if t.cond.get("neg") else 0
@@ -121,7 +128,17 @@ def rule_canon(P):
         if n.kind != "branch" or not n.cond or n.cond.get("op") != "==":
             return False
         l, r = n.cond["l"], n.cond["r"]
-        return (l.get("const") == 1 and "nnz" in r["refs"]) or (r.get("const") == 1 and "nnz" in l["refs"])
+        # "exactly one non-transparent child": a comparison with the constant 1 whose true arm goes on to ask isIdentityReduced()
+        if not ((l.get("const") == 1 and "const" not in r and len(r["refs"]) == 1) or (r.get("const") == 1 and "const" not in l and len(l["refs"]) == 1)) or len(n.succ) != 2:
+            return False
+        cur = g.nodes[[s for s, i in n.succ if i == (1 if n.cond.get("neg") else 0)][0]]
+        for _ in range(40):
+            if cur.kind == "branch" and cur.cond:
+                return any(c.endswith("forest::isIdentityReduced") for c in cur.cond["calls"])
+            if len(cur.succ) != 1:
+                return False
+            cur = g.nodes[cur.succ[0][0]]
+        return False
     must_pass("identity-pattern test (1 == nnz && identity reduced && primed level) on every insertion path", "identity-test", one_nnz, "singleton identity nodes of an identity-reduced relation can be inserted")
     idb = [n for n in g.nodes if n.kind == "branch" and n.cond and any(c.endswith("forest::isIdentityReduced") for c in n.cond["calls"])]
     lvl = [n for n in g.nodes if n.kind == "branch" and n.cond and any(c.endswith("unpacked_node::getLevel") for c in n.cond["calls"]) and n.cond.get("op") in ("<", ">")]
@@ -132,7 +149,10 @@ def rule_canon(P):
         fail(iid, "identity-guards", "the identity elimination lost its isIdentityReduced()/level guards")
     must_pass("redundancy test (fully reduced, or identity reduced at an unprimed level) on every insertion path", "redundancy-test",
               lambda n: n.kind == "branch" and n.cond and any(c.endswith("forest::isFullyReduced") for c in n.cond["calls"]), "redundant nodes can be inserted in a fully-reduced forest")
-    red = [n for n in g.nodes if n.kind == "branch" and n.cond and n.cond.get("op") == "truth" and n.cond["l"]["refs"] == ["redundant"]]
+    # the final `if (<flag>) { unlinkAllDown(*un, 1); …; return; }` — recognised by what the arm does (release all children but one)
+    red = [n for n in g.nodes if n.kind == "branch" and n.cond and n.cond.get("op") == "truth" and len(n.cond["l"]["refs"]) == 1 and len(n.succ) == 2
+           and g.nodes[[s for s, i in n.succ if i == (1 if n.cond.get("neg") else 0)][0]].kind == "call"
+           and qmatch(g.nodes[[s for s, i in n.succ if i == (1 if n.cond.get("neg") else 0)][0]].ev["q"], "forest::unlinkAllDown")]
     R.paths += 1
     bad = None
     for b in red:
@@ -162,7 +182,9 @@ def rule_canon(P):
                 R.ok(iid, where(f, hits[0].line))
         prev_pred, prev_name = pred, name
     finds = g.where(_is_call("unique_table::find"))
-    found = [n for n in g.nodes if n.kind == "branch" and n.cond and n.cond.get("op") == "truth" and n.cond["l"]["refs"] == ["node"] and len(n.succ) == 2]
+    # the variable that receives the result of the duplicate lookup, whatever it is called
+    found_vars = {n.ev["var"] for n in g.nodes if n.kind == "ldef" and re.search(r"\bfind\s*\(", n.ev.get("rhs", ""))}
+    found = [n for n in g.nodes if n.kind == "branch" and n.cond and n.cond.get("op") == "truth" and len(n.cond["l"]["refs"]) == 1 and n.cond["l"]["refs"][0] in found_vars and len(n.succ) == 2]
     R.paths += 1
     iid = "a successful lookup returns the existing node and never inserts"
     okf = False
@@ -263,7 +285,10 @@ def rule_hash(P):
     ga, gb = Graph(a), Graph(b)
     R.functions |= {a["inst"], b["inst"]}
     va = _hash_variants(ga, lambda c: any(x.endswith("unpacked_node::isSparse") for x in c["calls"]), lambda c: any(x.endswith("areEdgeValuesHashed") for x in c["calls"]))
-    vb = _hash_variants(gb, lambda c: c.get("op") == "truth" and "is_sparse" in c["l"]["refs"], lambda c: any(x.endswith("areEdgeValuesHashed") for x in c["calls"]))
+    # the packed side keeps the sparse bit in a local bool: the variable initialised from isSparse(…), whatever its name
+    sparse_vars = {n.ev["var"] for n in gb.nodes if n.kind == "ldef" and re.search(r"\bisSparse\s*\(", n.ev.get("rhs", ""))}
+    vb = _hash_variants(gb, lambda c: (c.get("op") == "truth" and len(c["l"]["refs"]) == 1 and c["l"]["refs"][0] in sparse_vars) or any(x.endswith("::isSparse") for x in c["calls"]),
+                        lambda c: any(x.endswith("areEdgeValuesHashed") for x in c["calls"]))
     if not va or not vb:
         raise AnalysisBroken("codec.hash: sparse / hashed-edge branches not found in computeHash or hashNode")
     for key in sorted(va):
